@@ -200,6 +200,24 @@ pub fn run() {
         }
     }
 
+    // P9: view array compared as a list child at a non-zero start, an earlier element is null
+    {
+        let f = Arc::new(Field::new("item", DataType::Utf8View, true));
+        let a = ListArray::try_new(
+            f.clone(),
+            OffsetBuffer::new(ScalarBuffer::from(vec![0i32, 1, 2])),
+            Arc::new(StringViewArray::from(vec![None, Some("x")])),
+            None,
+        )
+        .unwrap()
+        .slice(1, 1);
+        let b = ListArray::try_new(f, OffsetBuffer::new(ScalarBuffer::from(vec![0i32, 1])), Arc::new(StringViewArray::from(vec![Some("y")])), None).unwrap();
+        let a: ArrayRef = Arc::new(a);
+        let b: ArrayRef = Arc::new(b);
+        let eq = guard(|| a.to_data() == b.to_data());
+        eprintln!("[P9 view equality below a list] {:?} == {:?} -> {:?}", extract(a.as_ref()), extract(b.as_ref()), eq.map_err(|p| format!("PANIC {}", p.msg)));
+    }
+
     // P5: Flight schema of a nullable union field with metadata
     {
         use arrow_flight::encode::FlightDataEncoderBuilder;
